@@ -9,3 +9,14 @@
 #define DEBUG 2
 #define printf wb_printf
 #include "vnacal_new_solve_auto.c"
+
+/* the two static walks, callable from the "wbguard" command of selfcal_harness.c */
+#undef printf
+void wb_save_v(const vnacal_new_solve_state_t *vnssp, double complex *buf)
+{
+    save_v_matrices(vnssp, buf);
+}
+void wb_restore_v(vnacal_new_solve_state_t *vnssp, const double complex *buf)
+{
+    restore_v_matrices(vnssp, buf);
+}
